@@ -137,6 +137,16 @@ def search(stop_at=1):
             fails.append({"case": repr(T), "value": repr(v), "failure": f"non-member {v!r} of {T}: raised {e!r}, expected ValueError"})
         if stop_at and len(fails) >= stop_at:
             return fails, n, n
+    # "is the same on every call" for values that compare equal to a different valid value marshalled earlier (the
+    # catalogue of equal-but-distinct values is shared with C12)
+    from props import c12_concrete
+    vf, vn = c12_concrete.search_value_keys()
+    n += vn
+    for f in vf:
+        if f["op"] == "marshal":
+            fails.append({"case": "same-on-every-call: " + f["label"], "value": f["second"], "failure": f["failure"]})
+            if stop_at and len(fails) >= stop_at:
+                return fails, n, n
     return fails, n, n
 
 
